@@ -743,7 +743,7 @@ impl Scenario for CheckerScenario {
     }
     fn cases(&self, tier: Tier) -> u64 {
         match tier {
-            Tier::Quick => 16_000,
+            Tier::Quick => 24_000,
             Tier::Thorough => 200_000,
         }
     }
